@@ -2,7 +2,7 @@ CONSTANTS
   MaxLen = 7
   Alphabet <- AlphaB
   MsSet = {1, 2, 3}
-  BsSet = {1, 2, 3, 5}
+  BsSet = {0, 1, 2, 3, 5}
 INIT Init
 NEXT Next
 INVARIANT Inv_C13
